@@ -1,5 +1,5 @@
 (* C06 struct level, ALL struct types with a finite type graph (members of container and struct types included):
-   decoding any prefix of an encoding fails (error, or a count beyond the bytes left), or yields exactly the
+   decoding any prefix of an encoding fails with an error, or yields exactly the
    members completely present with all later members optional and at their reset values. *)
 From Coq Require Import List NArith ZArith Lia Bool Arith.
 From Coq Require Import ZifyN ZifyNat ZifyBool.
@@ -10,7 +10,7 @@ Import ListNotations.
 Ltac Zify.zify_post_hook ::= Z.div_mod_to_equations.
 Open Scope N_scope.
 
-Definition bad {A} (r : dres A) : Prop := r = DErr \/ r = DHuge.
+Definition bad {A} (r : dres A) : Prop := r = DErr.
 
 (* ---------- a member that is not found ---------- *)
 Definition absent_val (f : nat) (e : env) (t : ty) (prior : val) : val :=
@@ -49,11 +49,12 @@ Proof.
   - rewrite !dec_var_struct. cbv zeta. unfold skip_to. rewrite !seek_first by assumption. reflexivity.
 Qed.
 
-Lemma absent_prior_ok e f t d prior : (d <> None -> scalar_ty t = true) -> prior_ok e t d prior ->
+Lemma absent_prior_ok e k f t d prior : (forall sid, t = TStruct sid -> nest_ok k e t = true /\ (k <= f)%nat) ->
+  (d <> None -> scalar_ty t = true) -> prior_ok e t d prior ->
   prior_ok e t d (absent_val f e t prior).
 Proof.
-  intros Hd Hp. destruct t; try exact Hp. cbn [absent_val]. unfold prior_ok in *.
-  destruct d; [specialize (Hd ltac:(discriminate)); discriminate|]. now apply reset_zlike.
+  intros Hn Hd Hp. destruct t; try exact Hp. cbn [absent_val]. unfold prior_ok in *.
+  destruct d; [specialize (Hd ltac:(discriminate)); discriminate|]. destruct (Hn sid eq_refl). now apply (reset_zlike e k).
 Qed.
 
 (* a member on an exhausted input *)
@@ -73,20 +74,22 @@ Proof.
 Qed.
 
 (* the members on an exhausted input: an error if one is required, else all keep their (reset) target values *)
-Lemma fields_on_nil_gen e : forall fds ps fuel, Forall (fun fd => fdef fd <> None -> scalar_ty (fty fd) = true) fds ->
-  Forall2 (fun fd p => prior_ok e (fty fd) (fdef fd) p) fds ps -> (length fds + 3 <= fuel)%nat ->
+Lemma fields_on_nil_gen e k : forall fds ps fuel, Forall (fun fd => fdef fd <> None -> scalar_ty (fty fd) = true) fds ->
+  Forall (fun fd => nest_ok k e (fty fd) = true) fds ->
+  Forall2 (fun fd p => prior_ok e (fty fd) (fdef fd) p) fds ps -> (length fds + k + 3 <= fuel)%nat ->
   dec_fields fuel e fds ps [] = DErr \/
   exists ps', dec_fields fuel e fds ps [] = DOk ps' [] /\ optional fds /\ Forall2 (fun fd p => prior_ok e (fty fd) (fdef fd) p) fds ps'.
 Proof.
-  induction fds as [|fd fds IH]; intros ps fuel Hd Hps Hf.
+  induction fds as [|fd fds IH]; intros ps fuel Hd Hnest Hps Hf.
   - inversion Hps; subst. destruct fuel; [lia|]. right. exists []. repeat split; constructor.
   - inversion Hps as [|? p ? ps0 Hp Hps0]; subst. inversion Hd as [|? ? Hd1 Hd']; subst. cbn [length] in Hf.
+    inversion Hnest as [|? ? Hn1 Hnest']; subst.
     destruct fuel as [|f]; [lia|]. rewrite dec_fields_S. cbv zeta. cbn [tl].
     destruct f as [|f]; [lia|]. destruct f as [|f]; [lia|]. rewrite dec_var_nil.
     destruct (freq fd) eqn:Er; [now left|].
-    destruct (IH ps0 (S (S f)) Hd' Hps0 ltac:(lia)) as [->|(ps' & -> & Ho & Hps')]; [now left|].
+    destruct (IH ps0 (S (S f)) Hd' Hnest' Hps0 ltac:(lia)) as [->|(ps' & -> & Ho & Hps')]; [now left|].
     right. eexists. split; [reflexivity|]. split; [constructor; assumption|].
-    constructor; [now apply absent_prior_ok|assumption].
+    constructor; [apply (absent_prior_ok e k); [intros; split; [assumption|lia]|assumption|assumption]|assumption].
 Qed.
 
 (* ---------- counts cut short ---------- *)
@@ -219,8 +222,7 @@ Definition W_fields (f : nat) : Prop := forall m fds vs ps p q lo,
     optional (skipn i fds) /\ Forall2 (fun fd pr => prior_ok e (fty fd) (fdef fd) pr) fds ps' /\
     dec_fields f e fds ps p = DOk (firstn i (norm_fields e vs fds) ++ skipn i ps') [].
 
-Lemma bad_err {A} : @bad A DErr. Proof. now left. Qed.
-Lemma bad_huge {A} : @bad A DHuge. Proof. now right. Qed.
+Lemma bad_err {A} : @bad A DErr. Proof. reflexivity. Qed.
 
 Lemma wstep_elems f : W_var f -> W_elems f -> W_elems (S f).
 Proof.
@@ -241,13 +243,13 @@ Proof.
         rewrite app_nil_r in H1. rewrite H1.
         assert (H2 : bad (dec_elems f e x (Z.of_nat (length r)) [])).
         { apply (HE m x r [] (enc_elems e x r)); try assumption; [reflexivity|cbn [length]; lia]. }
-        destruct H2 as [-> | ->]; [apply bad_err|apply bad_huge].
+        unfold bad in H2; rewrite H2; apply bad_err.
       * (* cut inside the element *)
         assert (H1 : bad (dec_var f e 0 true x (zero_of f e x) p)).
         { destruct (HV m x 0 true None y (zero_of f e x) p (t0 :: t) Hfin Hy Hn) as [H|(Hc & _)]; try assumption; try lia; try discriminate.
           - intros Hc; congruence.
           - apply (zero_zlike e k); [now apply (ty_nest_nest e k)|lia]. }
-        destruct H1 as [-> | ->]; [apply bad_err|apply bad_huge].
+        unfold bad in H1; rewrite H1; apply bad_err.
     + subst p. rewrite app_length in Hf.
       assert (H1 : dec_var f e 0 true x (zero_of f e x) (enc_var e 0 true x None y ++ t) = DOk (norm e x true None y) t).
       { apply (member_complete f m); try assumption; try lia.
@@ -256,10 +258,10 @@ Proof.
       rewrite H1.
       assert (H2 : bad (dec_elems f e x (Z.of_nat (length r)) t)).
       { apply (HE m x r t q); try assumption. lia. }
-      destruct H2 as [-> | ->]; [apply bad_err|apply bad_huge].
+      unfold bad in H2; rewrite H2; apply bad_err.
 Qed.
 
-Ltac bad_of H := destruct H as [-> | ->]; [apply bad_err|apply bad_huge].
+Ltac bad_of H := unfold bad in H; rewrite H; apply bad_err.
 
 Lemma wstep_arr f : W_var f -> W_arr f -> W_arr (S f).
 Proof.
@@ -356,6 +358,9 @@ Qed.
 Lemma members_default_ok fds : Forall (member_ok e k) fds -> Forall (fun fd => fdef fd <> None -> scalar_ty (fty fd) = true) fds.
 Proof. intros H. eapply Forall_impl; [|exact H]. intros fd [_ A]. exact A. Qed.
 
+Lemma members_nest_ok fds : Forall (member_ok e k) fds -> Forall (fun fd => nest_ok k e (fty fd) = true) fds.
+Proof. intros H. eapply Forall_impl; [|exact H]. intros fd [A _]. now apply (ty_nest_nest e k). Qed.
+
 Lemma wstep_fields f : W_var f -> W_fields f -> W_fields (S f).
 Proof.
   intros HV HF m fds vs ps p q lo Hfin Hty Hmem Hasc Hps E Hf. rewrite dec_fields_S.
@@ -374,7 +379,7 @@ Proof.
     assert (Hnil : dec_fields (S (S f0)) e fds ps0 [] = DErr \/
               exists ps', dec_fields (S (S f0)) e fds ps0 [] = DOk ps' [] /\ optional fds /\
                           Forall2 (fun fd pr => prior_ok e (fty fd) (fdef fd) pr) fds ps').
-    { apply fields_on_nil_gen; [now apply members_default_ok|assumption|lia]. }
+    { apply (fields_on_nil_gen e k); [now apply members_default_ok|now apply members_nest_ok|assumption|lia]. }
     destruct (enc_var_shape e (ftag fd) (freq fd) (fty fd) (fdef fd) x Hx) as [(Hl & Hreq & Ea)|(Hl & ty & r & Hty' & Hse & Ea)].
     + (* the member was left out by the encoder *)
       rewrite Ea in *. cbn [app] in E. rewrite Hreq in *.
@@ -441,15 +446,17 @@ Definition w_concl (f : nat) (tag : N) (req : bool) (t : ty) (d : option val) (p
   bad (dec_var f e tag req t prior p) \/
   (req = false /\ (p = [] \/ halfhead p) /\ exists x, dec_var f e tag req t prior p = DOk x [] /\ prior_ok e t d x).
 
-Lemma w_absent f tag req t d prior p : (p = [] \/ halfhead p) -> (d <> None -> scalar_ty t = true) -> prior_ok e t d prior ->
+Lemma w_absent f tag req t d prior p : (forall sid, t = TStruct sid -> nest_ok k e t = true /\ (k <= S f)%nat) ->
+  (p = [] \/ halfhead p) -> (d <> None -> scalar_ty t = true) -> prior_ok e t d prior ->
   w_concl (S (S f)) tag req t d prior p.
 Proof.
-  intros Hp Hd Hpr. unfold w_concl.
+  intros Hnest Hp Hd Hpr. unfold w_concl.
   assert (E : dec_var (S (S f)) e tag req t prior p = if req then DErr else DOk (absent_val (S f) e t prior) []).
   { destruct Hp as [->|Hh]; [apply dec_var_nil|now apply dec_var_halfhead]. }
   rewrite E. destruct req; [left; apply bad_err|]. right. split; [reflexivity|]. split; [assumption|].
-  eexists. split; [reflexivity|]. now apply absent_prior_ok.
+  eexists. split; [reflexivity|]. now apply (absent_prior_ok e k).
 Qed.
+Ltac not_struct := let s := fresh in let H := fresh in intros s H; first [discriminate H | subst; discriminate].
 
 (* what follows the head of a LIST / MAP member: the count, then the elements *)
 Lemma count_cut n body u q : N.of_nat n < 2147483648 -> w_int32 (Z.of_nat n) 0 ++ body = u ++ q -> q <> [] ->
@@ -472,7 +479,7 @@ Lemma wstep_var_scalar f m tag req t d v prior p q :
   w_concl (S f) tag req t d prior p.
 Proof.
   intros Hsc Hty Htag Hd Hpr E Hq Hfin Hf. pose proof (tneed_ge3 e m t Hfin). destruct f as [|f0]; [lia|].
-  destruct p as [|b p]; [apply w_absent; [now left|assumption|assumption]|].
+  destruct p as [|b p]; [apply w_absent; [intros s0 Hs0; subst t; discriminate|now left|assumption|assumption]|].
   rewrite enc_var_scalar in E by assumption. destruct (omit t req d v); [discriminate|].
   unfold w_concl. rewrite dec_var_scalar by assumption.
   destruct (scalar_prefix f0 tag req t v prior (b :: p) q Hsc Hty Htag E Hq ltac:(discriminate)) as [->|(Hr & Hh & ->)].
@@ -489,7 +496,7 @@ Lemma wstep_var_bytes f tag req d s prior p q :
 Proof.
   intros Hs Htag Hd Hpr E Hq. cbn [enc_var] in E.
   destruct (negb req && match s with [] => true | _ => false end); [destruct p; [|discriminate]; cbn [app] in E; congruence|].
-  destruct (head_cut tSIMPLE tag _ p q ltac:(reflexivity) E Hq) as [Hab|(u & -> & Eu)]; [now apply w_absent|].
+  destruct (head_cut tSIMPLE tag _ p q ltac:(reflexivity) E Hq) as [Hab|(u & -> & Eu)]; [apply w_absent; [not_struct|assumption..]|].
   left. rewrite dec_var_vec, seek_first by sf.
   change (tSIMPLE =? tLIST) with false. change (tSIMPLE =? tSIMPLE) with true. cbv iota. cbn [is_byte].
   destruct (head_cut tBYTE 0 _ u q ltac:(reflexivity) Eu Hq) as [[->|(ty & Hty0 & ->)]|(u1 & -> & Eu1)].
@@ -499,7 +506,7 @@ Proof.
     destruct (count_cut (length s) s u1 q Hs Eu1 Hq) as [(r' & ->)|(u2 & -> & Es & Hlu)]; [apply bad_err|].
     assert (Hlen : (length u2 < length s)%nat).
     { assert (length s = length u2 + length q)%nat by (rewrite Es, app_length; reflexivity). destruct q; [congruence|]. cbn [length] in *. lia. }
-    unfold read_slice. destruct (Z.of_nat (length s) <=? 0)%Z eqn:E0; [lia|].
+    unfold read_slice. destruct (Z.of_nat (length s) <? 0)%Z eqn:E0; [lia|].
     destruct (Z.of_nat (length u2) <? Z.of_nat (length s))%Z eqn:E1; [apply bad_err|lia].
 Qed.
 
@@ -512,11 +519,11 @@ Lemma wstep_var_vec f m tag req d x xs prior p q : W_elems (S (S f)) ->
 Proof.
   intros HE Hx Hlen Hty Hn Hfin Htag Hd Hpr E Hq Hf. rewrite enc_var_list in E.
   destruct (negb req && match xs with [] => true | _ => false end); [destruct p; [|discriminate]; cbn [app] in E; congruence|].
-  destruct (head_cut tLIST tag _ p q ltac:(reflexivity) E Hq) as [Hab|(u & -> & Eu)]; [now apply w_absent|].
+  destruct (head_cut tLIST tag _ p q ltac:(reflexivity) E Hq) as [Hab|(u & -> & Eu)]; [apply w_absent; [not_struct|assumption..]|].
   left. rewrite dec_var_vec, seek_first by sf. change (tLIST =? tLIST) with true. cbv iota.
   destruct (count_cut (length xs) _ u q Hlen Eu Hq) as [(r' & ->)|(u2 & -> & Es & Hlu)]; [apply bad_err|].
   destruct (Z.of_nat (length xs) <? 0)%Z eqn:E1; [lia|].
-  destruct (Z.of_nat (length u2) <? Z.of_nat (length xs))%Z; [apply bad_huge|].
+  destruct (Z.of_nat (length u2) <? Z.of_nat (length xs))%Z; [apply bad_err|].
   assert (H2 : bad (dec_elems (S (S f)) e x (Z.of_nat (length xs)) u2)).
   { apply (HE m x xs u2 q); try assumption. rewrite !app_length in Hf. pose proof (head_length tLIST tag). lia. }
   bad_of H2.
@@ -531,11 +538,12 @@ Lemma wstep_var_arr f m tag req d n x xs prior p q : W_arr (S (S f)) ->
 Proof.
   intros HA Hl Hpos Hlen Hty Hn Hfin Htag Hd Hpr E Hq Hf. rewrite enc_var_arr in E.
   destruct (negb req && match xs with [] => true | _ => false end); [destruct p; [|discriminate]; cbn [app] in E; congruence|].
-  destruct (head_cut tLIST tag _ p q ltac:(reflexivity) E Hq) as [Hab|(u & -> & Eu)]; [now apply w_absent|].
+  destruct (head_cut tLIST tag _ p q ltac:(reflexivity) E Hq) as [Hab|(u & -> & Eu)]; [apply w_absent; [not_struct|assumption..]|].
   left. rewrite dec_var_arr, seek_first by sf. change (tLIST =? tLIST) with true. cbv iota.
   assert (d = None) by (destruct d; [specialize (Hd ltac:(discriminate)); discriminate|reflexivity]). subst d.
   unfold prior_ok in Hpr. inversion Hpr as [? Hb|? ? l Hll Hz|]; subst; [discriminate|].
   destruct (count_cut (length xs) _ u q ltac:(rewrite <- Hll in Hlen; lia) Eu Hq) as [(r' & ->)|(u2 & -> & Es & Hlu)]; [apply bad_err|].
+  replace ((Z.of_nat (length xs) <? 0)%Z || (Z.of_nat (length xs) <? Z.of_nat (length xs))%Z) with false by lia.
   assert (H2 : bad (dec_arr (S (S f)) e x (length xs) 0 (Z.of_nat (length xs)) l u2)).
   { pose proof (HA m x (length xs) [] l xs u2 q) as H1. cbn [length app] in H1. apply H1; try assumption; try reflexivity.
     rewrite !app_length in Hf. pose proof (head_length tLIST tag). lia. }
@@ -552,9 +560,10 @@ Lemma wstep_var_map f m tag req d kt vt kvs prior p q : W_entries (S (S f)) ->
 Proof.
   intros HM Hlen Hty Hnk Hnv Hfk Hfv Htag Hd Hpr E Hq Hf. rewrite enc_var_map in E.
   destruct (negb req && match kvs with [] => true | _ => false end); [destruct p; [|discriminate]; cbn [app] in E; congruence|].
-  destruct (head_cut tMAP tag _ p q ltac:(reflexivity) E Hq) as [Hab|(u & -> & Eu)]; [now apply w_absent|].
+  destruct (head_cut tMAP tag _ p q ltac:(reflexivity) E Hq) as [Hab|(u & -> & Eu)]; [apply w_absent; [not_struct|assumption..]|].
   left. rewrite dec_var_map. unfold skip_to. rewrite seek_first by sf. change (tMAP =? tMAP) with true. cbv iota.
   destruct (count_cut (length kvs) _ u q Hlen Eu Hq) as [(r' & ->)|(u2 & -> & Es & Hlu)]; [apply bad_err|].
+  destruct ((Z.of_nat (length kvs) <? 0)%Z || (Z.of_nat (length u2) / 2 <? Z.of_nat (length kvs))%Z); [apply bad_err|].
   assert (H2 : bad (dec_entries (S (S f)) e kt vt (Z.of_nat (length kvs)) u2)).
   { apply (HM m kt vt kvs u2 q); try assumption. rewrite !app_length in Hf. pose proof (head_length tMAP tag). lia. }
   bad_of H2.
@@ -563,16 +572,17 @@ Qed.
 Lemma wstep_var_struct f m tag req d sid vs prior p q : W_fields (S (S f)) ->
   Forall2 (fun fd x => has_type e (fty fd) x) (fields_of e sid) vs ->
   (forall fd, In fd (fields_of e sid) -> tfin m e (fty fd) = true) ->
+  nest_ok k e (TStruct sid) = true ->
   tag < 256 -> (d <> None -> scalar_ty (TStruct sid) = true) -> prior_ok e (TStruct sid) d prior ->
   enc_var e tag req (TStruct sid) d (VStruct vs) = p ++ q -> q <> [] ->
   (4 + length (fields_of e sid) + tmax (tneed m e) (fields_of e sid) + k + 4 * length p + 3 <= S (S (S f)))%nat ->
   w_concl (S (S (S f))) tag req (TStruct sid) d prior p.
 Proof.
-  intros HF Hty Hfin Htag Hd Hpr E Hq Hf. rewrite enc_var_struct in E.
-  destruct (head_cut tSB tag _ p q ltac:(reflexivity) E Hq) as [Hab|(u & -> & Eu)]; [now apply w_absent|].
+  intros HF Hty Hfin Hnest Htag Hd Hpr E Hq Hf. rewrite enc_var_struct in E.
+  destruct (head_cut tSB tag _ p q ltac:(reflexivity) E Hq) as [Hab|(u & -> & Eu)]; [apply w_absent; [intros s0 Hs0; split; [exact Hnest|lia]|assumption..]|].
   left. rewrite dec_var_struct. cbv zeta. unfold skip_to. rewrite seek_first by sf. change (tSB =? tSB) with true. cbv iota.
   assert (d = None) by (destruct d; [specialize (Hd ltac:(discriminate)); discriminate|reflexivity]). subst d.
-  destruct (struct_priors e (S f) sid prior Hpr) as (ps & -> & Hps).
+  destruct (struct_priors e k (S f) sid prior Hwf ltac:(lia)) as (ps & -> & Hps).
   (* u is a prefix of the member bytes: the closing StructEnd is not in it *)
   assert (Hu : exists t', enc_fields e vs (fields_of e sid) = u ++ t').
   { destruct (app_prefix_cases _ _ _ _ Eu) as [(t & Ha & Hq')|(t & Hp' & HB)]; [now exists t|].
@@ -603,7 +613,8 @@ Proof.
     apply (ty_nest_map e k) in Hn. destruct Hn as [Hnk Hnv].
     destruct f as [|[|f0]]; [lia|lia|]. now apply (wstep_var_map f0 m' tag req d kt vt kvs prior p q).
   - destruct m as [|m']; [discriminate|]. cbn [tfin tneed] in Hfin, Hf. rewrite forallb_forall in Hfin.
-    destruct f as [|[|f0]]; [lia|lia|]. now apply (wstep_var_struct f0 m' tag req d sid vs prior p q).
+    destruct f as [|[|f0]]; [lia|lia|]. apply (wstep_var_struct f0 m' tag req d sid vs prior p q); try assumption.
+    now apply (ty_nest_nest e k).
 Qed.
 
 Theorem w_all : forall f, W_var f /\ W_elems f /\ W_arr f /\ W_entries f /\ W_fields f.
@@ -620,7 +631,7 @@ Qed.
 End PrefixGen.
 
 (* C06, every struct type with a finite type graph: every prefix p of the encoding of a well-typed value decodes to
-   an error (DErr, or DHuge: a count beyond the bytes left), or to exactly the first i members - those completely
+   an error (DErr), or to exactly the first i members - those completely
    present in p; p is their encoding, possibly followed by the lone first byte of a two-byte head - with all later
    members optional and holding admissible reset values (declared default, else zero), nothing left unread *)
 Theorem prefix_general e k n sid vs p q :
@@ -635,14 +646,13 @@ Theorem prefix_general e k n sid vs p q :
 Proof.
   intros Hwf Hk Hfin Hn Hty HE. unfold decode, decode_into.
   replace (4 * length p + 64)%nat with (S (4 * length p + 63)) by lia.
-  destruct (struct_priors1 e (4 * length p + 63) sid (zero_struct e sid) (zero_struct_zlike e k sid Hwf Hk)) as (ps & -> & Hps).
+  destruct (struct_priors1 e k (4 * length p + 63) sid (zero_struct e sid) Hwf ltac:(lia)) as (ps & -> & Hps).
   rewrite encode_fields in HE. inversion Hty as [| | | | |? ? Hvs]; subst; [discriminate|].
   destruct n as [|n']; [discriminate|]. cbn [tfin tneed] in Hfin, Hn. rewrite forallb_forall in Hfin.
   destruct (w_all e k Hwf (S (4 * length p + 63))) as (_ & _ & _ & _ & HF).
   destruct (HF n' (fields_of e sid) vs ps p q None Hfin Hvs (members_ok e k Hwf sid) (wf_asc k e Hwf sid) Hps HE ltac:(lia))
-    as [[-> | ->]|(i & h & ps' & Hi & Hp & Hh & Ho & Hps' & ->)].
+    as [->|(i & h & ps' & Hi & Hp & Hh & Ho & Hps' & ->)].
   - left. apply bad_err.
-  - left. apply bad_huge.
   - right. exists i, h, ps'. repeat (split; [assumption|]). reflexivity.
 Qed.
 Print Assumptions prefix_general.
